@@ -46,9 +46,9 @@ def run(ctx):
         raise common.NoVerdict("probe does not run in a pristine process: %s" % base[:1])
     pristine = json.dumps(base[0]["val"], sort_keys=True, ensure_ascii=False)
     # the pristine observation itself must be what the spec's Pristine cells mean
-    want = ["0", "m", "GET", [], "undefined", "caught", ["Content-Type"], ["Content-Type"], "42", "1", "own-names"]
+    want = ["0", "m", "GET", [], "undefined", "caught", ["Content-Type"], ["Content-Type"], "42", "1", "own-names", "early-report"]
     v0 = base[0]["val"]["v"]
-    got0 = [v0[0].get("s"), v0[1].get("v"), v0[2].get("v"), v0[3].get("k"), v0[4].get("v"), v0[5].get("v"), v0[6].get("k"), v0[7].get("k"), v0[8].get("s"), v0[9].get("s"), v0[10].get("v") or v0[10]]
+    got0 = [v0[0].get("s"), v0[1].get("v"), v0[2].get("v"), v0[3].get("k"), v0[4].get("v"), v0[5].get("v"), v0[6].get("k"), v0[7].get("k"), v0[8].get("s"), v0[9].get("s"), v0[10].get("v") or v0[10], "early-report" if (v0[11].get("t") == "str" and "早三" in v0[11]["v"] and "早一" in v0[11]["v"]) else v0[11]]
     if got0 != want:
         raise common.NoVerdict("pristine probe observation %s differs from the expected %s" % (got0, want))
     # vacuity guard: the polluters must do what the spec's Effect() says they do (run to completion; failDeep fails three calls
@@ -67,7 +67,7 @@ def run(ctx):
         now = json.dumps(r.get("val"), sort_keys=True, ensure_ascii=False) if r["obs"] == "value" else "error: " + str(r.get("msg"))
         if now != pristine:
             # which cell changed
-            names = ["数值", "异常-constructor", "library-constructor", "library-defaults", "declared-names", "fault-handling", "response-default-headers", "response-default-headers-json", "module-file-resolution", "数值-seen-by-input-variable-text", "names-declared-in-a-native-type-constructor"]
+            names = ["数值", "异常-constructor", "library-constructor", "library-defaults", "declared-names", "fault-handling", "response-default-headers", "response-default-headers-json", "module-file-resolution", "数值-seen-by-input-variable-text", "names-declared-in-a-native-type-constructor", "error-report-of-an-earlier-execution"]
             changed = "probe-failed"
             if r["obs"] == "value":
                 pv = base[0]["val"]["v"]; nv = r["val"]["v"]
@@ -124,7 +124,7 @@ def run(ctx):
                evaluations=len(cases) + len(ccases), distinct_nontrivial=len(seqs) + len(scheds) + len(scheds3),
                rule="sequential: all 1464 sequences P1;..;Pn (n<=3; quick: all of n<=2 and a seeded 40 percent of n=3) over 11 polluters (mutate 数值 in place, redefine the constructor of 异常, redefine a "
                     "library type's constructor, mutate a library type's dictionary default through an instance, write into the headers a response constructor supplied, fail three calls "
-                    "deep, declare names/methods/types, import libraries, run a FILE that imports a custom module file, a request whose INPUT-VARIABLE TEXT mutates 数值, names declared inside the body of a redefined constructor of 异常), each on ONE interpreter "
+                    "deep, declare names/methods/types, import libraries, run a FILE that imports a custom module file, a request whose INPUT-VARIABLE TEXT mutates 数值, names declared inside the body of a redefined constructor of 异常), preceded by an execution that FAILS three calls deep and whose error is rendered only at the very end (it must still describe its own execution), each on ONE interpreter "
                     "object and on separate ones, each in a fresh process, followed by a probe that observes every cell: the observation must equal the probe's in a "
                     "pristine process. static: the go/types inventory of package-level variables must equal the classified GLOBALS table of the spec. concurrent: all 6 interleavings of bind-source/read-source of 2 requests (x%d) and %d of the 90 of 3 requests through one "
                     "ZnPlaygroundHandler, the order enforced by the H4 gates: every request must be answered with its own program's result. TLC checks Isolation / "
